@@ -1304,6 +1304,13 @@ TraceSelect ==
     /\ stats' = Bump(stats, "lines")
     /\ UNCHANGED << pst, D, nodes, dlv, sto, psto, rrv, meta, cev, ctx, base, last, pools, lostSet, evals, fames, ref, sub, viol >>
 
+\* C11: the database a kill left behind could not even be opened
+TraceReopenFailed ==
+    /\ Line.a = "ReopenFailed"
+    /\ viol' = AddCapped(viol, ChecksD("C11", "Inv_C11_BootstrapSucceeds", "database-cannot-be-reopened", FALSE))
+    /\ stats' = Bump(stats, "lines")
+    /\ UNCHANGED << pst, D, nodes, dlv, sto, psto, rrv, meta, cev, ctx, base, last, pools, lostSet, evals, fames, ref, sub, drift >>
+
 TraceNoop ==
     /\ Line.a \in { "SyncFail", "Note", "StateChange" }
     /\ stats' = Bump(stats, "lines")
@@ -1312,7 +1319,7 @@ TraceNoop ==
 TraceStep ==
     /\ l <= NLines
     /\ l' = l + 1
-    /\ \/ TraceReset \/ TraceCreate \/ TraceSubmit \/ TraceSync \/ TraceNoop \/ TraceApiRead \/ TraceSelect
+    /\ \/ TraceReset \/ TraceCreate \/ TraceSubmit \/ TraceSync \/ TraceNoop \/ TraceApiRead \/ TraceSelect \/ TraceReopenFailed
        \/ TraceQuorum \/ TraceQuorumAccept \/ TraceMedian \/ TraceHgInsert \/ TraceInstance
        \/ TraceNodeUp \/ TraceAddItx \/ TraceOpDone \/ TraceOffer \/ TraceLiveCheck \/ TraceFFOffer
        \/ TraceRpc \/ TraceStateRpc \/ TraceHeartbeat \/ TraceBytes
